@@ -2306,11 +2306,13 @@ func ruleC17SortKey(c *ctx.Ctx, r *core.Reporter) {
 				adjusted = exprStr(ce)
 			case strings.HasSuffix(ts, "token.FileSet") && se.Sel.Name == "PositionFor" && len(ce.Args) == 2 && exprStr(ce.Args[1]) != "false":
 				adjusted = exprStr(ce)
+			case strings.HasSuffix(ts, "token.FileSet") && se.Sel.Name == "PositionFor" && len(ce.Args) == 2 && exprStr(ce.Args[1]) == "false":
+				physical++
 			}
 			return true
 		})
 	}
-	r.Check(physical >= 1 && adjusted == "", "sort-key:physical-name", c.Pos(sortFd.Pos()), "files are compared by token.File.Name()"+ternary(adjusted != "", " (found `"+adjusted+"`: the adjusted position takes its file name from //line directives, so two files can tie and keep their listing order)", ""))
+	r.Check(physical >= 1 && adjusted == "", "sort-key:physical-name", c.Pos(sortFd.Pos()), "files are compared by token.File.Name() (or the unadjusted PositionFor(pos, false).Filename)"+ternary(adjusted != "", " (found `"+adjusted+"`: the adjusted position takes its file name from //line directives, so two files can tie and keep their listing order)", ""))
 }
 
 // ruleC10ExportedReference: other packages reach an exported function through `$pkg.<Name>`. A body-less
@@ -2715,7 +2717,7 @@ func ruleC13PoolNil(c *ctx.Ctx, r *core.Reporter) {
 // map[string]string, or an `any` slot and a typed one) needs two results; a cache keyed by the value alone
 // hands the first one out for both.
 func ruleC11SeenCache(c *ctx.Ctx, r *core.Reporter) {
-	r.Begin("C11.seen-cache", "F-KEY", "every access to the top level of $internalize's `seen` cache is keyed by the type parameter; values are looked up in the per-type table", 3)
+	r.Begin("C11.seen-cache", "F-KEY", "every access to the top level of $internalize's `seen` cache is keyed by the type parameter; values are looked up in the per-type table", 2)
 	if !needPrelude(c, r) {
 		return
 	}
@@ -2731,6 +2733,8 @@ func ruleC11SeenCache(c *ctx.Ctx, r *core.Reporter) {
 	}
 	v, t, seen := ps[0].IdentName(), ps[1].IdentName(), ps[3].IdentName()
 	n := 0
+	var bad []string
+	site := fn.Pos()
 	fn.Walk(func(x *ctx.JSNode) bool {
 		if !x.Is("CallExpression") {
 			return true
@@ -2741,11 +2745,17 @@ func ruleC11SeenCache(c *ctx.Ctx, r *core.Reporter) {
 			return true
 		}
 		n++
-		k := x.L("arguments")[0].IdentName()
-		r.Check(k == t, fmt.Sprintf("seen-keyed-by-type#%d", n), x.Pos(), fmt.Sprintf("`%s`: the top level of the cache is keyed by the type `%s`%s", squash(x.Src()), t, ternary(k == v, " — keyed by the JavaScript value alone, one object read at two Go types yields the first type's representation twice", "")))
+		if k := x.L("arguments")[0].IdentName(); k != t {
+			if len(bad) == 0 {
+				site = x.Pos()
+			}
+			bad = append(bad, squash(x.Src()))
+		}
 		return true
 	})
-	r.Check(n >= 3, "sites", fn.Pos(), fmt.Sprintf("%d accesses to the top level of the cache", n))
+	_ = v
+	r.Check(len(bad) == 0, "seen-keyed-by-type", site, fmt.Sprintf("all %d accesses to the top level of the cache are keyed by the type `%s`%s", n, t, ternary(len(bad) > 0, fmt.Sprintf(" — not %v: keyed by the JavaScript value alone, one object read at two Go types yields the first type's representation twice", bad), "")))
+	r.Check(n >= 2, "sites", fn.Pos(), fmt.Sprintf("%d accesses to the top level of the cache", n))
 }
 
 // ruleC12BlankSpecKept: an original `var a, b = f()` loses the names an overlay overrides (they become `_`);
@@ -2883,4 +2893,162 @@ func ruleC04LitInfo(c *ctx.Ctx, r *core.Reporter) {
 		return true
 	})
 	r.Check(bad == "", "lit-info:match-only", c.Pos(fi.Pos()), "every non-nil result of FuncLitInfo is returned under `<entry>.typeArgs.Equal(typeArgs)`"+ternary(bad != "", " (`"+bad+"` hands out an entry of whatever instantiation was analysed first: its blocking marks are wrong for the others)", ""))
+}
+
+// --- C13.modf ------------------------------------------------------------------------------------------
+// evalGoFloatTuple evaluates a straight-line overlay body (if/return/:=) whose return statement has several
+// float results. `Mod` is modelled by math.Mod (JavaScript's % on numbers is C's fmod, as is Go's math.Mod);
+// every other call must be to an overlay function the evaluator can enter.
+func evalGoFloatTuple(list []ast.Stmt, env map[string]float64, funcs map[string]*ast.FuncDecl, depth int) ([]float64, bool) {
+	for _, st := range list {
+		switch s := st.(type) {
+		case *ast.AssignStmt:
+			if len(s.Lhs) != 1 || len(s.Rhs) != 1 {
+				return nil, false
+			}
+			id, ok := s.Lhs[0].(*ast.Ident)
+			if !ok {
+				return nil, false
+			}
+			v, ok := evalGoFloatM(s.Rhs[0], env, funcs, depth)
+			if !ok || v.is != 'f' {
+				return nil, false
+			}
+			env[id.Name] = v.f
+		case *ast.ReturnStmt:
+			var out []float64
+			for _, e := range s.Results {
+				v, ok := evalGoFloatM(e, env, funcs, depth)
+				if !ok || v.is != 'f' {
+					return nil, false
+				}
+				out = append(out, v.f)
+			}
+			return out, true
+		case *ast.IfStmt:
+			if s.Init != nil || s.Else != nil {
+				return nil, false
+			}
+			c, ok := evalGoFloatM(s.Cond, env, funcs, depth)
+			if !ok || c.is != 'b' {
+				return nil, false
+			}
+			if c.b {
+				return evalGoFloatTuple(s.Body.List, env, funcs, depth)
+			}
+		default:
+			return nil, false
+		}
+	}
+	return nil, false
+}
+
+// evalGoFloatM is evalGoFloat plus the model of Mod.
+func evalGoFloatM(e ast.Expr, env map[string]float64, funcs map[string]*ast.FuncDecl, depth int) (fval, bool) {
+	if ce, ok := ast.Unparen(e).(*ast.CallExpr); ok {
+		if id, ok := ce.Fun.(*ast.Ident); ok && id.Name == "Mod" && len(ce.Args) == 2 {
+			a, ok1 := evalGoFloatM(ce.Args[0], env, funcs, depth)
+			b, ok2 := evalGoFloatM(ce.Args[1], env, funcs, depth)
+			if !ok1 || !ok2 || a.is != 'f' || b.is != 'f' {
+				return fval{}, false
+			}
+			return fval{f: math.Mod(a.f, b.f), is: 'f'}, true
+		}
+	}
+	if be, ok := ast.Unparen(e).(*ast.BinaryExpr); ok {
+		// descend with the model on both sides
+		l, ok1 := evalGoFloatM(be.X, env, funcs, depth)
+		rr, ok2 := evalGoFloatM(be.Y, env, funcs, depth)
+		if ok1 && ok2 && l.is == 'f' && rr.is == 'f' {
+			env2 := map[string]float64{"µl": l.f, "µr": rr.f}
+			return evalGoFloat(&ast.BinaryExpr{X: ast.NewIdent("µl"), Op: be.Op, Y: ast.NewIdent("µr")}, env2, funcs, depth)
+		}
+	}
+	return evalGoFloat(e, env, funcs, depth)
+}
+
+func ruleC13Modf(c *ctx.Ctx, r *core.Reporter) {
+	r.Begin("C13.modf", "F-CLASS", "the math.Modf overlay returns the integer and fractional part with the signs IEEE/Go give them (both carry the sign of the operand, zero included) on representatives of every class of operand", 8)
+	nat := c.Natives()
+	funcs := map[string]*ast.FuncDecl{}
+	for _, f := range nat.PkgFiles("math") {
+		for _, d := range f.AST.Decls {
+			if x, ok := d.(*ast.FuncDecl); ok && x.Recv == nil {
+				funcs[x.Name.Name] = x
+			}
+		}
+	}
+	fd := funcs["Modf"]
+	if fd == nil || fd.Body == nil {
+		r.Info("modf", nativesRootRel+"/math", "math.Modf is not overridden")
+		return
+	}
+	p := fd.Type.Params.List[0].Names[0].Name
+	negZero := math.Copysign(0, -1)
+	for _, v := range []float64{math.Inf(-1), -3, -2.5, -0.5, negZero, 0, 0.5, 2.5, 3, math.Inf(1)} {
+		env := map[string]float64{p: v, "negInf": math.Inf(-1), "posInf": math.Inf(1), "nan": math.NaN()}
+		got, ok := evalGoFloatTuple(fd.Body.List, env, funcs, 0)
+		key := fmt.Sprintf("modf@%v", v)
+		if v == 0 && math.Signbit(v) {
+			key = "modf@-0"
+		}
+		if !ok || len(got) != 2 {
+			r.Undecided(key, nat.Pos(c, fd.Pos()), "the body of Modf is outside the statement language of the evaluator (:=, if, return; comparisons and arithmetic; Mod; overlay functions)")
+			continue
+		}
+		wi, wf := math.Modf(v)
+		same := func(a, b float64) bool {
+			if math.IsNaN(a) || math.IsNaN(b) {
+				return math.IsNaN(a) && math.IsNaN(b)
+			}
+			return a == b && math.Signbit(a) == math.Signbit(b)
+		}
+		sz := func(f float64) string {
+			if f == 0 && math.Signbit(f) {
+				return "-0"
+			}
+			return fmt.Sprint(f)
+		}
+		r.Check(same(got[0], wi) && same(got[1], wf), key, nat.Pos(c, fd.Pos()), fmt.Sprintf("Modf(%s) evaluates to (%s, %s); Go: (%s, %s)", sz(v), sz(got[0]), sz(got[1]), sz(wi), sz(wf)))
+	}
+}
+
+// ruleDeferRecover: recover stops a panic only when called directly BY a deferred function. `defer recover()`
+// makes recover the deferred function itself, which does not count. The proxy lambda that delegatedCall
+// builds for builtins would turn it into `function() { $recover(); }` — a deferred function that calls
+// recover directly — so the builtin recover has to be delegated as it is.
+func ruleDeferRecover(c *ctx.Ctx, r *core.Reporter) {
+	r.Begin("C08.defer-recover", "F-MUST", "delegatedCall hands the builtin recover over as the function $recover itself, before the proxy lambda for builtins is built", 1)
+	fd := c.FuncDecl("compiler", "funcContext.delegatedCall")
+	if fd == nil {
+		r.Undecided("delegatedCall", "compiler/expressions.go", "not found")
+		return
+	}
+	// position of the proxy lambda template
+	lambda := token.NoPos
+	ast.Inspect(fd.Body, func(x ast.Node) bool {
+		if bl, ok := x.(*ast.BasicLit); ok && strings.Contains(bl.Value, "function(%s) {") && lambda == token.NoPos {
+			lambda = bl.Pos()
+		}
+		return true
+	})
+	special := token.NoPos
+	ast.Inspect(fd.Body, func(x ast.Node) bool {
+		is, ok := x.(*ast.IfStmt)
+		if !ok || !strings.Contains(exprStr(is.Cond), `"recover"`) {
+			return true
+		}
+		returnsRecover := false
+		ast.Inspect(is.Body, func(y ast.Node) bool {
+			if rs, ok := y.(*ast.ReturnStmt); ok && len(rs.Results) == 2 && strings.Contains(exprStr(rs.Results[0]), `"$recover"`) {
+				returnsRecover = true
+			}
+			return true
+		})
+		if returnsRecover {
+			special = is.Pos()
+		}
+		return true
+	})
+	r.Check(special != token.NoPos && (lambda == token.NoPos || special < lambda), "recover-not-wrapped", c.Pos(fd.Pos()), "`defer recover()` pushes $recover itself: wrapped in the proxy lambda it would be a recover called directly by a deferred function and stop the panic (Go: `defer recover()` does not recover)")
 }
